@@ -126,6 +126,7 @@ pub fn frame(lines: &[String], crlf_mode: u64, final_newline: bool, rng: &mut Rn
 /// Is the list representable on the argument channel without changing its meaning?
 pub fn argument_safe(lines: &[String]) -> bool {
     !lines.is_empty()
+        && lines.iter().map(|l| l.len() + 9).sum::<usize>() < 120_000 // keep far below ARG_MAX
         && !(lines.len() == 1 && lines[0] == "-")
         && lines.iter().all(|l| !l.is_empty() && (!l.starts_with('-') || (l == "-" && lines.len() > 1)) && !l.contains('\0'))
 }
@@ -157,6 +158,18 @@ pub fn corpus() -> Vec<(String, Vec<String>)> {
         ("whitespace".into(), s(&["  lead", "trail  ", "\t"])),
         ("dashes".into(), s(&["-dash", "--x", "-"])),
         ("single".into(), s(&["a"])),
+        // a result of a few kilobytes (more than std's 1 KiB line buffer): 200 pseudo-random six-letter words
+        ("long-output".into(), {
+            let mut st = 0x0DDB_A115_EED5_0001u64;
+            let mut set = std::collections::BTreeSet::new();
+            while set.len() < 200 {
+                let w: String = (0..6).map(|_| (b'a' + (crate::prng::splitmix64(&mut st) % 26) as u8) as char).collect();
+                set.insert(w);
+            }
+            set.into_iter().collect()
+        }),
+        // more than 1 MiB of input, cheap to build: 150,000 lines, 3 distinct
+        ("huge-valid".into(), (0..150_000).map(|i| ["abcdefg", "abcxyz", "q"][i % 3].to_string()).collect()),
         // characters that some tools take for line breaks or terminators, and noncharacters: all belong to the test case
         ("odd-separators".into(), s(&["a\u{c}b", "c\u{85}d", "e\u{2028}f", "g\u{b}h", "\u{fffe}", "\u{ffff}x", "i\u{2029}j", "k\u{1a}l"])),
         // streams whose size is exactly a buffer size (with LF framing and a final newline): 1024 and 8192 lines of 8 bytes
@@ -289,6 +302,7 @@ pub fn input_classes(channel: &str) -> Vec<&'static str> {
 
 /// A random plan of 0..=8 events. `hard` allows non-benign events (errors, early end of stream).
 pub fn random_plan(case: &mut Case, rng: &mut Rng, hard: bool) {
+    let big = case.stdin.len().max(case.file.len()) > 200_000;
     let n = rng.below(9);
     let mut classes = input_classes(&case.channel);
     classes.push("w1");
@@ -299,7 +313,7 @@ pub fn random_plan(case: &mut Case, rng: &mut Rng, hard: bool) {
         let c = *rng.pick(&classes);
         let ev: (String, String, i64) = match c {
             "r0" | "rf" => match rng.below(if hard { 8 } else { 5 }) {
-                0 | 1 | 2 => (c.into(), "chunk".into(), *rng.pick(&[1i64, 1, 2, 3, 5, 7, 16, 100])),
+                0 | 1 | 2 => (c.into(), "chunk".into(), if big { *rng.pick(&[4096i64, 65_536, 100_000]) } else { *rng.pick(&[1i64, 1, 2, 3, 5, 7, 16, 100]) }),
                 3 | 4 => (c.into(), "eintr".into(), 0),
                 5 | 6 => (c.into(), "eof".into(), 0),
                 _ => (c.into(), "err".into(), *rng.pick(HARD_READ_ERRNOS)),
@@ -331,7 +345,8 @@ pub fn random_plan(case: &mut Case, rng: &mut Rng, hard: bool) {
     if rng.chance(1, 4) {
         let c = *rng.pick(&classes);
         if c != "op" && c != "st" {
-            case.dchunk.push((c.to_string(), *rng.pick(&[1i64, 2, 3, 7, 64])));
+            let n = if big && (c == "r0" || c == "rf") { *rng.pick(&[4096i64, 8192, 65_536]) } else { *rng.pick(&[1i64, 2, 3, 7, 64]) };
+            case.dchunk.push((c.to_string(), n));
         }
     }
 }
@@ -360,6 +375,11 @@ pub fn unusable_streams() -> Vec<(String, Vec<u8>)> {
         ("overlong".into(), vec![b'a', 0xC0, 0xAF, b'\n']),
         ("encoded-surrogate".into(), vec![0xED, 0xA0, 0x80, b'\n']),
         ("latin1".into(), vec![b'c', b'a', b'f', 0xE9, b'\n']),
+        ("invalid-after-1MiB".into(), {
+            let mut v = "abcdefg\n".repeat(140_000).into_bytes();
+            v.extend([b'c', b'a', b'f', 0xE9, b'\n', b'z', b'\n']);
+            v
+        }),
         ("invalid-after-64k".into(), {
             let mut v = "abcdefg\n".repeat(8200).into_bytes();
             v.extend([b'x', 0xC3, b'\n']);
